@@ -589,6 +589,14 @@ class Run:
         self.gate = None
         self.assumptions = []
         self.exhaustive = False
+        if not os.environ.get('PMC_VERIF_REPLAY'):
+            # replays of earlier runs of this property are stale once it is re-run
+            import glob
+            for old in glob.glob(os.path.join(VERIF, 'replays', pid + '-*.json')):
+                try:
+                    os.remove(old)
+                except OSError:
+                    pass
 
     @property
     def thorough(self):
